@@ -61,7 +61,7 @@ def class_src(cfg: dict, o1: dict, o2: dict) -> str:
            "from apischema import alias, validator, ValidationError, dependent_required, Undefined, UndefinedType",
            "from apischema.metadata import flatten", "from apischema.objects import get_alias",
            "PREFIX = lambda s: 'p_' + s", "",
-           deco[cfg["ical"]] + "@dataclass", "class Inner:",
+           ("@dataclass\nclass InnerBase:" if cfg["struct"] == "inherit" else deco[cfg["ical"]] + "@dataclass\nclass Inner:"),
            field_src(f1, "int", None), field_src(f2, "int", None),
            field_src(o1, "Union[int, UndefinedType]", "Undefined"), field_src(o2, "Union[int, UndefinedType]", "Undefined"),
            f"    deps = dependent_required({{{o1['name']}: [{o2['name']}]}})",
@@ -71,7 +71,9 @@ def class_src(cfg: dict, o1: dict, o2: dict) -> str:
            f"            yield get_alias(self).{f2['name']}, 'v2'",
            f"    @validator({f2['name']})", "    def v3(self):", f"        if self.{f2['name']} == 14:",
            f"            yield get_alias(self).{f1['name']}, 'v3'", ""]
-    if cfg["struct"] != "plain":
+    if cfg["struct"] == "inherit":
+        src += [deco[cfg["ical"]] + "@dataclass", "class Inner(InnerBase):", "    pass", ""]
+    if cfg["struct"] not in ("plain", "inherit"):
         lf = field_src(link, "Inner", None)
         if cfg["struct"] == "flat":
             lf = f'    {link["name"]}: Inner = field(metadata=flatten)'
@@ -139,7 +141,7 @@ def observe(rep: common.Report, case: dict) -> int:
     cfg, o1, o2 = case["cfg"], case["o1"], case["o2"]
     E = {r: ev(t) for r, t in case["expect"].items()}
     mod = build(cfg, o1, o2)
-    struct = cfg["struct"]
+    struct = "plain" if cfg["struct"] == "inherit" else cfg["struct"]
     Root = mod.Inner if struct == "plain" else mod.Outer
     al = aliasers()
     kw = {} if cfg["call"] == "default" else {"aliaser": al[cfg["call"]]}
